@@ -40,6 +40,40 @@ type helper struct {
 
 var helpers = map[*ssa.Function]*helper{}
 
+// rootCtx is the function a rule is currently looking at (set by the primitives
+// that take a function: Instrs, ReturnAlts, ...). A helper shared by several
+// callers is read in the context of that function: only the call sites made on
+// its behalf say what the helper's parameters are.
+var rootCtx *ssa.Function
+
+func setRoot(f *ssa.Function) {
+	if f == nil || len(helpers) == 0 {
+		return
+	}
+	o := outermost(f)
+	if helperFor(o) == nil {
+		rootCtx = o
+	}
+}
+
+// sitesInContext: the call sites of h that belong to the function in focus
+// (all of them when that leaves none).
+func sitesInContext(h *helper) []ssa.CallInstruction {
+	if rootCtx == nil || len(h.sites) < 2 {
+		return h.sites
+	}
+	var out []ssa.CallInstruction
+	for _, s := range h.sites {
+		if inScopeOf(s.Parent(), rootCtx, 4) {
+			out = append(out, s)
+		}
+	}
+	if len(out) == 0 {
+		return h.sites
+	}
+	return out
+}
+
 func helperFor(f *ssa.Function) *helper {
 	if f == nil || len(helpers) == 0 {
 		return nil
@@ -182,7 +216,13 @@ func (w *World) findCalledClosures() {
 // instrsWithHelpers visits the instructions of fn and, after each call of a
 // transparent helper, the helper's instructions (once per helper).
 func instrsWithHelpers(fn *ssa.Function, f func(ssa.Instruction), seen map[*ssa.Function]bool) {
+	isHelper := helperFor(fn) != nil
 	for _, b := range fn.Blocks {
+		// a branch of a helper that the call in focus cannot take (`if remove {..}` with
+		// load(key, false)) is not part of the function in focus
+		if isHelper && infeasibleInContext(b) {
+			continue
+		}
 		for _, in := range b.Instrs {
 			f(in)
 			if h := helperCall(in); h != nil && !seen[h.fn] {
@@ -295,7 +335,7 @@ func siteConds(b *ssa.BasicBlock, depth int) []Cond {
 		return nil
 	}
 	var common []Cond
-	for i, s := range h.sites {
+	for i, s := range sitesInContext(h) {
 		cs := append(condsLocal(s.Block()), siteConds(s.Block(), depth-1)...)
 		if i == 0 {
 			common = cs
@@ -332,7 +372,7 @@ func helperParamPath(p *ssa.Parameter, d int) (string, bool) {
 		return "", false
 	}
 	out := ""
-	for i, s := range h.sites {
+	for i, s := range sitesInContext(h) {
 		args := s.Common().Args
 		if idx >= len(args) {
 			return "", false
@@ -516,4 +556,20 @@ func calleeConds(b *ssa.BasicBlock) []Cond {
 		}
 	}
 	return out
+}
+
+// infeasibleInContext: block b of a transparent helper lies under a test of a
+// parameter that is a boolean constant at the call site(s) in focus, with the
+// other outcome.
+func infeasibleInContext(b *ssa.BasicBlock) bool {
+	for _, c := range condsLocal(b) {
+		p, isP := c.V.(*ssa.Parameter)
+		if !isP {
+			continue
+		}
+		if k, isK := constBool(unhelp(p)); isK && k != c.Pol {
+			return true
+		}
+	}
+	return false
 }
